@@ -24,7 +24,8 @@ RULE = ("generated call DAGs of 2-7 nodes over 6 memento functions (one in a nam
         '; rounds 10-11: calls that hand the child a list which the caller changes in place afterwards'
         '; round 12: sub-calls (single and batched) whose result the body ignores'
         '; round 14: function values handed over and never applied'
-        '; round 15: resources looked at a second time in the same body')
+        '; round 15: resources looked at a second time in the same body'
+        '; round 16: eight histories in which a callee is released under a second explicit version between a memoized sub-call and its caller\'s run')
 ASSUMPTIONS = ["the closed form lists every memento call a body makes, in program order, duplicates included, "
                "whether it returned, raised a memoized exception or a not-to-be-memoized one",
                "explicitly versioned functions are used so that no dependency validation interferes"]
